@@ -424,6 +424,11 @@ func (e *exprCtx) expr(v ssa.Value) string {
 					}
 				}
 			}
+			if fa, ok := x.X.(*ssa.FieldAddr); ok && !e.seen[fa] {
+				if s, ok := e.localField(fa); ok {
+					return s
+				}
+			}
 			if fa, ok := x.X.(*ssa.FieldAddr); ok {
 				if a, ok := fa.X.(*ssa.Alloc); ok && uniqueStore(a) == nil {
 					// composite literal / local struct field: resolve through the unique store to that field
@@ -2600,4 +2605,94 @@ func (e *exprCtx) convert(x *ssa.Convert) string {
 		return andStr(fmt.Sprint((uint64(1)<<uint(db))-1), e.expr(x.X))
 	}
 	return "conv[" + typeName(x.Type()) + "](" + e.expr(x.X) + ")"
+}
+
+
+// localField renders a load of a (possibly nested) field of a local struct variable as the value that was put there:
+// through the composite literal's store to that field, and through whole copies of the struct into other locals
+// (`x := T{f: v}; y := x; … y.f.g` reads `v.g`). ok is false when the field's value is not uniquely determined.
+func (e *exprCtx) localField(fa *ssa.FieldAddr) (string, bool) {
+	type step struct {
+		t   types.Type
+		idx int
+	}
+	var path []step
+	cur := fa
+	var base *ssa.Alloc
+	for depth := 0; depth < 6; depth++ {
+		path = append([]step{{cur.X.Type(), cur.Field}}, path...)
+		if a, ok := cur.X.(*ssa.Alloc); ok {
+			base = a
+			break
+		}
+		nxt, ok := cur.X.(*ssa.FieldAddr)
+		if !ok {
+			return "", false
+		}
+		cur = nxt
+	}
+	if base == nil || (len(path) == 1 && uniqueStore(base) == nil) {
+		return "", false // the one-level case keeps its own rendering
+	}
+	v := resolveAllocField(base, path[0].idx, 0)
+	if v == nil {
+		return "", false
+	}
+	e.seen[fa] = true
+	s := e.expr(v)
+	delete(e.seen, fa)
+	for _, st := range path[1:] {
+		s += "." + fieldName(st.t, st.idx)
+	}
+	return s, true
+}
+
+func hasFieldStores(a *ssa.Alloc) bool {
+	for _, r := range *a.Referrers() {
+		if fa, ok := r.(*ssa.FieldAddr); ok {
+			for _, rr := range *fa.Referrers() {
+				if st, ok := rr.(*ssa.Store); ok && st.Addr == ssa.Value(fa) {
+					return true
+				}
+			}
+		}
+	}
+	return false
+}
+
+// resolveAllocField: the one value field f of the local struct a holds.
+func resolveAllocField(a *ssa.Alloc, f int, depth int) ssa.Value {
+	if depth > 3 {
+		return nil
+	}
+	st := uniqueStore(a)
+	if st == nil {
+		return uniqueFieldStore(a, f)
+	}
+	if hasFieldStores(a) {
+		return nil
+	}
+	ld, ok := st.Val.(*ssa.UnOp)
+	if !ok || ld.Op != token.MUL {
+		return nil
+	}
+	a1, ok := ld.X.(*ssa.Alloc)
+	if !ok || a1.Parent() != a.Parent() {
+		return nil
+	}
+	v := resolveAllocField(a1, f, depth+1)
+	if v == nil {
+		return nil
+	}
+	// the field must have been set before the copy was taken
+	for _, r := range *a1.Referrers() {
+		if fa, ok := r.(*ssa.FieldAddr); ok && fa.Field == f {
+			for _, rr := range *fa.Referrers() {
+				if s2, ok := rr.(*ssa.Store); ok && s2.Addr == ssa.Value(fa) && !instrDominates(s2, ld) {
+					return nil
+				}
+			}
+		}
+	}
+	return v
 }
